@@ -1,6 +1,358 @@
-/-! line-protocol handlers (stub: filled in when the suite is built) -/
-namespace Apko.Driver.Formats
+import Apko.Model.Formats
+/-! line-protocol handlers for corr:formats (C16).
 
-def handle (_args : List String) : Option String := none
+Requests (tab separated; records in the wire format below; `x` = hex text):
+  f.idx.rw  <pkgs>          ArchiveFromIndex → text → IndexFromArchive → re-render
+  f.idx.r   <x>             ParsePackageIndex on arbitrary text
+  f.idb.rw  <aspect> <ipkgs>  AddInstalledPackage* → text → ParseInstalled → re-render; aspect ∈ pkg|iif|files|csum|text2
+  f.idb.r   <x>             ParseInstalled on arbitrary text
+  f.base    <x>             the same text through ParseInstalled and ParsePackageIndex (base_image.go)
+  f.pw.rw <users> / f.pw.r <x> / f.gr.rw <groups> / f.gr.r <x>
+Answers `impl \t spec \t class`.  Outside the property's quantifier (`WF…` false) the spec makes no
+demand and repeats impl.  `class` names the listed defect that fully explains impl ≠ spec. -/
+namespace Apko.Driver.Formats
+open Apko Apko.Formats
+
+/-! ## concrete base64 (encoding/base64.StdEncoding), trusted: see `Codec` -/
+
+def b64Alphabet : Text := "ABCDEFGHIJKLMNOPQRSTUVWXYZabcdefghijklmnopqrstuvwxyz0123456789+/".toList
+def b64Char (n : Nat) : Char := b64Alphabet.getD n 'A'
+def b64Val (c : Char) : Option Nat := b64Alphabet.idxOf? c
+
+def b64EncN : List Nat → Text
+  | a :: b :: c :: rest =>
+    b64Char (a / 4) :: b64Char (a % 4 * 16 + b / 16) :: b64Char (b % 16 * 4 + c / 64) :: b64Char (c % 64) :: b64EncN rest
+  | [a, b] => [b64Char (a / 4), b64Char (a % 4 * 16 + b / 16), b64Char (b % 16 * 4), '=']
+  | [a] => [b64Char (a / 4), b64Char (a % 4 * 16), '=', '=']
+  | [] => []
+
+def b64DecN : Text → Option (List Nat)
+  | [] => some []
+  | [a, b, '=', '='] => match b64Val a, b64Val b with
+    | some x, some y => some [x * 4 + y / 16]
+    | _, _ => none
+  | [a, b, c, '='] => match b64Val a, b64Val b, b64Val c with
+    | some x, some y, some z => some [x * 4 + y / 16, y % 16 * 16 + z / 4]
+    | _, _, _ => none
+  | a :: b :: c :: d :: rest => match b64Val a, b64Val b, b64Val c, b64Val d, b64DecN rest with
+    | some x, some y, some z, some w, some tl => some ((x * 4 + y / 16) :: (y % 16 * 16 + z / 4) :: (z % 4 * 64 + w) :: tl)
+    | _, _, _, _, _ => none
+  | _ => none
+
+def b64 : Codec where
+  enc := fun b => b64EncN (b.map Char.toNat)
+  dec := fun t => (b64DecN (t.filter fun c => c != '\r' && c != '\n')).map (·.map Char.ofNat)
+
+/-! ## wire format -/
+
+def wList (l : List Text) : String := String.join (l.map fun t => "." ++ hexS t)
+def rList (s : String) : List Text := ((s.splitOn ".").drop 1).map unhexS
+
+def wPkg (p : Pkg) : String :=
+  ",".intercalate [hexS p.name, hexS p.version, hexS p.arch, hexS p.description, hexS p.license,
+    hexS p.origin, hexS p.maintainer, hexS p.url, hexS p.commit, hexS p.checksum, wList p.deps,
+    wList p.provides, wList p.installIf, wList p.replaces, toString p.size, toString p.installedSize,
+    toString p.priority, toString p.buildTime]
+
+def rPkg (s : String) : Option Pkg :=
+  match s.splitOn "," with
+  | [n, v, a, d, l, o, m, u, c, ck, dp, pr, ii, rp, sz, isz, k, bt] =>
+    match sz.toNat?, isz.toNat?, k.toNat?, bt.toInt? with
+    | some sz, some isz, some k, some bt =>
+      some { name := unhexS n, version := unhexS v, arch := unhexS a, description := unhexS d,
+             license := unhexS l, origin := unhexS o, maintainer := unhexS m, url := unhexS u,
+             commit := unhexS c, checksum := unhexS ck, deps := rList dp, provides := rList pr,
+             installIf := rList ii, replaces := rList rp, size := sz, installedSize := isz,
+             priority := k, buildTime := bt }
+    | _, _, _, _ => none
+  | _ => none
+
+def rMany {α : Type} (sep : String) (f : String → Option α) (s : String) : Option (List α) :=
+  if s = "" then some [] else mapAllOpt f (s.splitOn sep)
+
+def wPkgs (ps : List Pkg) : String := ";".intercalate (ps.map wPkg)
+def rPkgs : String → Option (List Pkg) := rMany ";" rPkg
+
+def wFile (f : FileRec) : String :=
+  ",".intercalate [hexS f.name, if f.isDir then "1" else "0", toString f.mode, toString f.uid, toString f.gid, hexS f.csum]
+def rFile (s : String) : Option FileRec :=
+  match s.splitOn "," with
+  | [n, d, m, u, g, c] => match m.toInt?, u.toInt?, g.toInt? with
+    | some m, some u, some g => some { name := unhexS n, isDir := d == "1", mode := m, uid := u, gid := g, csum := unhexS c }
+    | _, _, _ => none
+  | _ => none
+def wFiles (fs : List FileRec) : String := ";".intercalate (fs.map wFile)
+def rFiles : String → Option (List FileRec) := rMany ";" rFile
+
+def wIPkg (ip : IPkg) : String := wPkg ip.pkg ++ "/" ++ wFiles ip.files
+def rIPkg (s : String) : Option IPkg :=
+  match s.splitOn "/" with
+  | [p, fs] => match rPkg p, rFiles fs with
+    | some p, some fs => some ⟨p, fs⟩
+    | _, _ => none
+  | _ => none
+def wIPkgs (l : List IPkg) : String := "|".intercalate (l.map wIPkg)
+def rIPkgs : String → Option (List IPkg) := rMany "|" rIPkg
+
+def wUser (u : User) : String :=
+  ",".intercalate [hexS u.name, hexS u.password, toString u.uid, toString u.gid, hexS u.info, hexS u.home, hexS u.shell]
+def rUser (s : String) : Option User :=
+  match s.splitOn "," with
+  | [n, p, u, g, i, h, sh] => match u.toNat?, g.toNat? with
+    | some u, some g => some ⟨unhexS n, unhexS p, u, g, unhexS i, unhexS h, unhexS sh⟩
+    | _, _ => none
+  | _ => none
+def wGroup (g : Group) : String := ",".intercalate [hexS g.name, hexS g.password, toString g.gid, wList g.members]
+def rGroup (s : String) : Option Group :=
+  match s.splitOn "," with
+  | [n, p, g, m] => match g.toNat? with
+    | some g => some ⟨unhexS n, unhexS p, g, rList m⟩
+    | none => none
+  | _ => none
+
+def showRes {α : Type} (f : α → String) : Res α → String
+  | .ok a => f a
+  | .err => "err"
+  | .oob => "oob"
+
+def triple (impl spec cls : String) : String :=
+  impl ++ "\t" ++ spec ++ "\t" ++ (if impl = spec then "-" else cls)
+
+/-- sort file records by name (canonical order for comparison) -/
+def sortFiles (fs : List FileRec) : List FileRec := fs.mergeSort fun a b => textLe a.name b.name
+
+/-! ## index -/
+
+def idxMax : Nat := indexTokenMax
+def wfPkgs (rows : List Row) (max : Nat) (ps : List Pkg) : Bool := ps.all (WFPkg b64 rows max)
+
+/-- how Go's default list formatting reads back -/
+def mangleList (l : List Text) : List Text := splitRepeatedField (goList l)
+
+def idxRW (ps : List Pkg) : String :=
+  let text := renderIndex b64 indexRows ps
+  let out (parsed : Res (List Pkg)) : String :=
+    match parsed with
+    | .ok qs => hexS text ++ "|" ++ wPkgs qs ++ "|" ++ hexS (renderIndex b64 indexRows qs)
+    | .err => hexS text ++ "|err"
+    | .oob => hexS text ++ "|oob"
+  let impl := out (parseIndex b64 indexCases text)
+  if wfPkgs indexRows idxMax ps then
+    let want := ps.map indexProj
+    let spec := hexS text ++ "|" ++ wPkgs want ++ "|" ++ hexS text
+    -- F16a: explained when the only difference is install_if read back from `[a b]`
+    let mangled := want.map fun p => if p.installIf = [] then p else { p with installIf := mangleList p.installIf }
+    let alt := hexS text ++ "|" ++ wPkgs mangled ++ "|" ++ hexS (renderIndex b64 indexRows mangled)
+    triple impl spec (if impl = alt then "F16a-index" else "unlisted")
+  else triple impl impl "-"
+
+/-! ## installed db -/
+
+def idbMax : Nat := defaultTokenMax
+
+def cleanName (n : Text) : Bool :=
+  let cs := splitOnChar '/' n
+  lineSafe n && cs.all fun c => !c.isEmpty && c != ['.'] && c != ['.', '.']
+
+def parentOf (n : Text) : Option Text :=
+  let cs := splitOnChar '/' n
+  if cs.length ≤ 1 then none else some (joinWith ['/'] cs.dropLast)
+
+def csumOK (c : Text) : Bool :=
+  c.isEmpty || (if (['Q', '1'] : Text).isPrefixOf c then (b64.dec (c.drop 2)).isSome && lineSafe c else (hexDecode c).isSome)
+
+def wfFiles (fs : List FileRec) : Bool :=
+  fs.all (fun f => cleanName f.name && decide (0 ≤ f.mode) && decide (f.mode < 4096)
+      && decide (-(2 ^ 63) ≤ f.uid) && decide (f.uid < 2 ^ 63) && decide (-(2 ^ 63) ≤ f.gid) && decide (f.gid < 2 ^ 63)
+      && csumOK f.csum
+      && (match parentOf f.name with
+          | none => true
+          | some d => fs.any fun g => g.isDir && g.name == d))
+  && (fs.map (·.name)).Pairwise (· ≠ ·)
+
+def wfIPkg (ip : IPkg) : Bool :=
+  WFPkg b64 idbRows idbMax ip.pkg && wfFiles ip.files &&
+  (match renderInstalled b64 idbRows ip with
+   | .ok t => linesFit idbMax (rawLines t)
+   | _ => false)
+
+/-- canonical form of a checksum: "Q1" + base64 -/
+def canonCsum (c : Text) : Text :=
+  if c.isEmpty || (['Q', '1'] : Text).isPrefixOf c then c
+  else match hexDecode c with
+    | some b => 'Q' :: '1' :: b64.enc b
+    | none => c
+
+def isTopDropped (fs : List FileRec) (f : FileRec) : Bool :=
+  !f.name.contains '/' && (!f.isDir || !(fs.any fun g => (f.name ++ ['/']).isPrefixOf g.name))
+
+def filesView (fs : List FileRec) : String :=
+  wFiles ((sortFiles fs).map fun f => { f with csum := [] })
+def csumView (fs : List FileRec) : String :=
+  ";".intercalate ((sortFiles fs).map fun f => hexS f.name ++ "," ++ hexS f.csum)
+
+def dropLinesTagged (tags : List Char) (t : Text) : Text :=
+  unlines ((rawLines t).filter fun l => match l with
+    | c :: ':' :: _ => !tags.contains c
+    | _ => true)
+
+def firstSome {α : Type} : List (Option α) → Option α
+  | [] => none
+  | some a :: _ => some a
+  | none :: r => firstSome r
+
+def idbRW (aspect : String) (ips : List IPkg) : String :=
+  match renderInstalledAll b64 idbRows ips with
+  | .err => triple "werr" "werr" "-"
+  | .oob => triple "woob" "woob" "-"
+  | .ok text =>
+    let parsed := parseInstalled b64 idbCases idbGuarded text
+    let wf := ips.all wfIPkg
+    let view (f : List IPkg → String) : String := showRes f parsed
+    let join (xs : List String) : String := "|".intercalate xs
+    match aspect with
+    | "pkg" =>
+      let f (l : List IPkg) := hexS text ++ "|" ++ wPkgs (l.map fun ip => { ip.pkg with installIf := [] })
+      let impl := view f
+      if wf then
+        let spec := f ips
+        -- F16b: empty D:/p: read back as [""]
+        let alt := f (ips.map fun ip => { ip with pkg := { ip.pkg with
+          deps := if ip.pkg.deps = [] then [[]] else ip.pkg.deps,
+          provides := if ip.pkg.provides = [] then [[]] else ip.pkg.provides } })
+        triple impl spec (if impl = alt then "F16b" else "unlisted")
+      else triple impl impl "-"
+    | "iif" =>
+      let f (l : List IPkg) := join (l.map fun ip => wList ip.pkg.installIf)
+      let impl := view f
+      if wf then
+        let alt := f (ips.map fun ip => { ip with pkg := { ip.pkg with installIf := splitOnChar ' ' (goList ip.pkg.installIf) } })
+        let alt2 := f (ips.map fun ip => { ip with pkg := { ip.pkg with installIf := mangleList ip.pkg.installIf } })
+        triple impl (f ips) (if impl = alt || impl = alt2 then "F16a-idb" else "unlisted")
+      else triple impl impl "-"
+    | "files" =>
+      let f (l : List IPkg) := join (l.map fun ip => filesView ip.files)
+      let impl := view f
+      if wf then
+        let tg (fs : List FileRec) := fs.map fun x => { x with mode := if x.isDir then 0o755 else 0o644, uid := 0, gid := 0 }
+        let td (fs : List FileRec) := fs.map fun x => { x with mode := x.mode.emod 512 }
+        let th (fs : List FileRec) := fs.filter fun x => !isTopDropped fs x
+        let v (t : List FileRec → List FileRec) := f (ips.map fun ip => { ip with files := t ip.files })
+        let cls := firstSome [
+          if impl = v td then some "F16d" else none,
+          if impl = v th then some "F16h" else none,
+          if impl = v tg then some "F16g" else none,
+          if impl = v (td ∘ th) then some "F16h" else none,
+          if impl = v (tg ∘ th) then some "F16g" else none]
+        triple impl (f ips) (cls.getD "unlisted")
+      else triple impl impl "-"
+    | "csum" =>
+      let f (l : List IPkg) := join (l.map fun ip => csumView ip.files)
+      let impl := view f
+      if wf then
+        let spec := f (ips.map fun ip => { ip with files := ip.files.map fun x => { x with csum := canonCsum x.csum } })
+        let th (fs : List FileRec) := fs.filter fun x => !isTopDropped fs x
+        let alt := f (ips.map fun ip => { ip with files := (th ip.files).map fun x => { x with csum := [] } })
+        triple impl spec (if impl = alt then (if ips.all (fun ip => ip.files.all fun x => x.csum.isEmpty) then "F16h" else "F16c") else "unlisted")
+      else triple impl impl "-"
+    | _ => -- "text2": re-render what was read
+      let impl := match parsed with
+        | .ok l => (match renderInstalledAll b64 idbRows l with
+          | .ok t2 => hexS t2
+          | .err => "werr2"
+          | .oob => "woob2")
+        | .err => "err"
+        | .oob => "oob"
+      if wf then
+        let spec := hexS text
+        let expl (tags : List Char) : Bool :=
+          match parsed with
+          | .ok l => (match renderInstalledAll b64 idbRows l with
+            | .ok t2 => dropLinesTagged tags t2 == dropLinesTagged tags text
+            | _ => false)
+          | _ => false
+        let cls := firstSome [
+          if expl ['i'] then some "F16a-idb" else none,
+          if expl ['i', 'Z'] then some "F16c" else none,
+          if expl ['i', 'Z', 'M', 'a'] then some "F16g" else none,
+          if expl ['i', 'Z', 'M', 'a', 'D', 'p'] then some "F16b" else none]
+        triple impl spec (cls.getD "unlisted")
+      else triple impl impl "-"
+
+/-! ## passwd / group -/
+
+def colonSafe (t : Text) : Bool := lineSafe t && t.all (· != ':')
+def wfUserCore (u : User) : Bool :=
+  colonSafe u.name && colonSafe u.password && colonSafe u.info && colonSafe u.home && colonSafe u.shell &&
+  decide (u.uid < 4294967296) && decide (u.gid < 4294967296) && decide ((renderUser u).length ≤ defaultTokenMax)
+def wfUser (u : User) : Bool := wfUserCore u && (leadSpace u.name).isNone && (trailSpace u.shell).isNone
+
+def memberSafe (t : Text) : Bool := !t.isEmpty && colonSafe t && t.all (· != ',')
+def wfGroupCore (g : Group) : Bool :=
+  colonSafe g.name && colonSafe g.password && g.members.all memberSafe && decide (g.gid < 4294967296) &&
+  decide ((renderGroup g).length ≤ defaultTokenMax)
+def wfGroup (g : Group) : Bool :=
+  wfGroupCore g && (leadSpace g.name).isNone && (trailSpace (joinWith [','] g.members)).isNone
+
+def pwRW (us : List User) : String :=
+  let text := writeUsers us
+  let out : Option (List User) → String
+    | some l => hexS text ++ "|" ++ ";".intercalate (l.map wUser) ++ "|" ++ hexS (writeUsers l)
+    | none => hexS text ++ "|err"
+  let impl := out (loadUsers text)
+  if us.all wfUser then triple impl (out (some us)) "unlisted"
+  else if us.all wfUserCore then
+    -- F16f: Parse trims the line; the spec still demands the fields back
+    triple impl (out (some us)) "F16f"
+  else triple impl impl "-"
+
+def grRW (gs : List Group) : String :=
+  let text := writeGroups gs
+  let out : Option (List Group) → String
+    | some l => hexS text ++ "|" ++ ";".intercalate (l.map wGroup) ++ "|" ++ hexS (writeGroups l)
+    | none => hexS text ++ "|err"
+  let impl := out (loadGroups text)
+  if gs.all wfGroup then
+    let alt := out (some (gs.map fun g => if g.members = [] then { g with members := [[]] } else g))
+    triple impl (out (some gs)) (if impl = alt then "F16e" else "unlisted")
+  else if gs.all wfGroupCore then triple impl (out (some gs)) "F16f"
+  else triple impl impl "-"
+
+def handle (args : List String) : Option String :=
+  match args with
+  | ["f.idx.rw", ps] => some <| match rPkgs ps with
+    | some ps => idxRW ps
+    | none => "bad-wire"
+  | ["f.idx.r", x] =>
+    let r := showRes wPkgs (parseIndex b64 indexCases (unhexS x))
+    some (triple r r "-")
+  | ["f.idb.rw", aspect, ips] => some <| match rIPkgs ips with
+    | some ips => idbRW aspect ips
+    | none => "bad-wire"
+  | ["f.idb.r", x] =>
+    let r := showRes wIPkgs (parseInstalled b64 idbCases idbGuarded (unhexS x))
+    some (triple r r "-")
+  | ["f.base", x] =>
+    let t := unhexS x
+    let r := showRes (fun l => wPkgs (l.map (·.pkg))) (parseInstalled b64 idbCases idbGuarded t) ++ "|" ++
+      showRes wPkgs (parseIndex b64 indexCases t)
+    some (triple r r "-")
+  | ["f.pw.rw", us] => some <| match rMany ";" rUser us with
+    | some us => pwRW us
+    | none => "bad-wire"
+  | ["f.pw.r", x] =>
+    let r := match loadUsers (unhexS x) with
+      | some l => ";".intercalate (l.map wUser)
+      | none => "err"
+    some (triple r r "-")
+  | ["f.gr.rw", gs] => some <| match rMany ";" rGroup gs with
+    | some gs => grRW gs
+    | none => "bad-wire"
+  | ["f.gr.r", x] =>
+    let r := match loadGroups (unhexS x) with
+      | some l => ";".intercalate (l.map wGroup)
+      | none => "err"
+    some (triple r r "-")
+  | _ => none
 
 end Apko.Driver.Formats
